@@ -96,7 +96,7 @@ class BoolCFGLM(LM):
         elif alg == "cky":
             from genlm.grammar.parse.cky import CKYLM
 
-            self.model = CKYLM(cfg)
+            self.model = CKYLM(cfg).model
         else:
             raise ValueError(f"unrecognized option {alg}")
         super().__init__(eos=EOS, V=cfg.V)
